@@ -53,6 +53,13 @@ def run(R):
     R.rule("C18-R1", "renaming apart depends on the goal: the generator of fresh rule-variable names receives data derived "
                      "from the goal pattern and from the current bindings (so it can avoid names occurring there)")
     R.rule("C18-R2", "component coverage: backward chaining consults premise, conclusion, filters and negative_premise of a rule")
+    R.rule("C18-R3", "one substitution per unification: unify_patterns unifies subject, predicate and object against the SAME growing "
+                     "substitution (a clone of the caller's bindings) and returns exactly that substitution")
+    R.rule("C18-R4", "bindings are resolved transitively: resolve_term follows variable-to-variable bindings to the end (it recurses "
+                     "on the bound term), so unify_terms never re-binds an already bound variable")
+    R.rule("C18-R5", "rule bodies are conjunctions: in the chaining helper the accumulated solutions are replaced by the solutions of "
+                     "each premise in turn, under every accumulated binding, one level deeper; the premise loop is only left when the "
+                     "premises are exhausted (or after the replacement), and only then are the solutions added to the answers")
     helper = R.body("C18-R1", "Reasoner::backward_chaining_helper", crate="datalog")
     ren = R.body("C18-R1", "backward_chaining::rename_rule_variables", crate="datalog")
     if helper is None or ren is None:
@@ -143,3 +150,136 @@ def run(R):
         ok = f in got
         R.ob("C18-R2", "cover:backward_chaining_helper:%s" % f, "backward chaining consults Rule.%s" % f, ok, where=helper.where(),
              detail=None if ok else "answers outside the least model are returned for rules using this component")
+
+    r3_r4_r5(R, helper)
+
+
+def r3_r4_r5(R, helper):
+    from lib import pipeline as P
+    prog = R.prog
+    up = R.body("C18-R3", "backward_chaining::unify_patterns", crate="datalog")
+    ut = R.body("C18-R3", "backward_chaining::unify_terms", crate="datalog")
+    rt = R.body("C18-R4", "backward_chaining::resolve_term", crate="datalog")
+    if up is not None and ut is not None:
+        calls = [c for c in up.calls() if c.key == ut.key]
+        R.ob("C18-R3", "three", "unify_patterns unifies the three positions (found %d unify_terms calls)" % len(calls), len(calls) == 3, where=up.where())
+        roots = set()
+        pos = set()
+        for c in calls:
+            roots.add(up.alias_root(c.args[2]))
+            for a in c.args[:2]:
+                oa = up.origin(a, stop_named=False)
+                if oa[0] == "place":
+                    pos |= {e.get("i") for e in oa[1]["p"] if e["k"] == "field"}
+        one = len(roots) == 1 and None not in roots
+        R.ob("C18-R3", "same-substitution", "all three unify_terms calls extend one substitution local", one, where=up.where(),
+             detail=None if one else "a position unified against a separate copy does not see the bindings made by the other positions: "
+             "`?x p ?x` then matches a fact with different subject and object")
+        R.ob("C18-R3", "positions", "the three calls cover subject, predicate and object (tuple fields %s)" % sorted(x for x in pos if x is not None),
+             {0, 1, 2} <= pos, where=up.where())
+        if one:
+            l = next(iter(roots))
+            d = [x for x in up.defs().get(l, []) if x[0] == "call"]
+            from_clone = len(d) == 1 and d[0][2].name() == "clone" and up.alias_root(d[0][2].args[0]) == 3
+            R.ob("C18-R3", "starts-from-caller", "the substitution starts as a clone of the caller's bindings", from_clone, where=up.where())
+            # returned in Some(..)
+            ret = False
+            for bb, i, pl, rv, st in up.assigns():
+                if pl["l"] == 0 and rv["rv"] == "aggregate" and rv.get("variant") == "Some" and rv["ops"] and up.alias_root(rv["ops"][0]) == l:
+                    ret = True
+            R.ob("C18-R3", "returns-it", "unify_patterns returns that substitution", ret, where=up.where())
+    if rt is not None:
+        rec = [c for c in rt.calls() if c.key == rt.key]
+        ok = False
+        for c in rec:
+            o = rt.origin(c.args[0], stop_named=False)
+            # the argument is the payload of bindings.get(v)
+            if o[0] == "place":
+                d = rt.single_def(o[1]["l"])
+                if d and d[0] == "call" and d[2].name() == "get":
+                    ok = True
+            elif o[0] == "call" and o[1].name() == "get":
+                ok = True
+        loops = bool(rt.loops())
+        R.ob("C18-R4", "transitive", "resolve_term recurses (or loops) on the term a variable is bound to", ok or loops, where=rt.where(),
+             detail=None if (ok or loops) else "a variable bound to a variable bound to a constant resolves to the middle variable; unification then "
+             "overwrites that variable's binding and returns answers that are not entailed")
+        if ut is not None:
+            res = [c for c in ut.calls() if c.key == rt.key]
+            R.ob("C18-R4", "both-resolved", "unify_terms resolves both terms before comparing them (found %d resolve_term calls)" % len(res), len(res) >= 2, where=ut.where())
+    if helper is None:
+        return
+    # ---- R5: the premise loop
+    rec = [c for c in helper.calls() if c.key == helper.key]
+    R.ob("C18-R5", "recursion", "the chaining helper solves premises by calling itself (found %d call)" % len(rec), len(rec) >= 1, where=helper.where())
+    for c in rec:
+        # depth + 1
+        o = helper.origin(c.args[3], stop_named=False)
+        plus1 = False
+        rv = o[1] if o[0] == "rv" else None
+        if o[0] == "place":
+            d = helper.single_def(o[1]["l"])
+            rv = d[3] if d and d[0] == "assign" else None
+        if rv is not None and rv["rv"] == "binop" and rv["op"].startswith("Add"):
+            ca, cb = F.const_int(rv["a"]), F.const_int(rv["b"])
+            other = rv["b"] if ca is not None else rv["a"]
+            k = ca if ca is not None else cb
+            plus1 = k is not None and k >= 1 and helper.alias_root(other) == 4
+        R.ob("C18-R5", "deeper", "a premise is solved at depth + k, k >= 1 (termination bound applies along every branch)", plus1, where=helper.where(c.ln))
+        # loop nest: inner loop over the accumulated solutions, outer loop over the premises
+        inner = P.loop_driver(helper, c.bb)
+        if inner is None or inner[2] is None:
+            R.ob("C18-R5", "nest", "the recursive call sits in a loop over the accumulated solutions", False, where=helper.where(c.ln))
+            continue
+        ih, iblocks, itree = inner
+        acc_names, acc_roots = P.flat(itree)
+        acc = [r for r in acc_roots if r["k"] == "root"]
+        acc_l = acc[0]["local"] if len(acc) == 1 else None
+        whole = not [n for n in acc_names if n not in ("iter", "into_iter", "deref", "clone", "cloned", "iter_mut")]
+        R.ob("C18-R5", "every-binding", "the premise is solved under every accumulated binding (pipeline %s)" % acc_names, acc_l is not None and whole, where=helper.where(c.ln))
+        # the binding passed is the inner loop's item; the premise passed is the outer loop's item
+        outer = None
+        for h2, b2 in helper.loops():
+            if ih in b2 and h2 != ih and (outer is None or len(b2) < len(outer[1])):
+                outer = (h2, b2)
+        if outer is None or acc_l is None:
+            R.ob("C18-R5", "premise-loop", "the solutions loop is nested in a loop over the rule's premises", False, where=helper.where(c.ln))
+            continue
+        oh, oblocks = outer
+        odrv = P.driver_of(helper, oh, oblocks)
+        onames, oroots = (P.flat(odrv[2]) if odrv and odrv[2] else ([], []))
+        over_prem = any(r["k"] == "root" and "premise" in r["fields"] for r in oroots)
+        whole_p = not [n for n in onames if n not in ("iter", "into_iter", "deref")]
+        R.ob("C18-R5", "premise-loop", "the outer loop visits every premise of the renamed rule (pipeline %s over %s)" % (onames, [P.render(r) for r in oroots]),
+             over_prem and whole_p, where=helper.where(c.ln))
+        # replacement: acc = new inside the outer loop, after the inner loop; new collects the recursive results
+        repl = []
+        for bb, i, pl, rv, st in helper.assigns():
+            if bb in oblocks and bb not in iblocks and not pl["p"] and helper.alias_root(pl["l"]) == helper.alias_root(acc_l) and rv["rv"] == "use" \
+                    and F.op_place(rv["op"]) is not None:
+                repl.append((bb, F.op_place(rv["op"])["l"], st.get("ln")))
+        R.ob("C18-R5", "replaced", "after each premise the accumulated solutions are replaced by the new ones (found %d assignment)" % len(repl), len(repl) >= 1,
+             where=helper.where(c.ln))
+        for bb, src, ln in repl:
+            fed = any(x.name() in ("extend", "push", "append") and x.bb in iblocks and helper.alias_root(x.args[0]) == helper.alias_root(src)
+                      and c.dest["l"] in {helper.alias_root(a) for a in x.args[1:]} | {(F.op_place(a) or {"l": None})["l"] for a in x.args[1:]}
+                      for x in helper.calls())
+            R.ob("C18-R5", "collects", "the new solutions are exactly what the recursive calls returned", fed, where=helper.where(ln))
+            # exits of the premise loop: only the exhausted-iterator exit, or exits after the replacement
+            onext = odrv[0] if odrv else None
+            bad = []
+            for k in oblocks:
+                for s2 in helper.succ(k):
+                    if s2 in oblocks or helper.blocks[s2]["term"]["t"] == "unreachable":
+                        continue
+                    # exit edge k -> s2
+                    from_inner = k in helper.reach_from([ih], avoid={oh})
+                    if from_inner and not helper.dominates(bb, k) and k != bb:
+                        bad.append(k)
+            R.ob("C18-R5", "no-early-exit", "the premise loop is left only when the premises are exhausted or after the solutions were replaced", not bad,
+                 where=helper.where(ln), detail=None if not bad else "leaving the loop with the previous premise's solutions returns bindings that do "
+                 "not satisfy the remaining premises (answers that are not entailed)")
+        # the answers receive the accumulated solutions after the loop
+        ext = [x for x in helper.calls() if x.name() in ("extend", "append") and x.bb not in oblocks and len(x.args) >= 2
+               and helper.alias_root(x.args[1]) == helper.alias_root(acc_l)]
+        R.ob("C18-R5", "answers", "the solutions of the complete body are added to the answers after the premise loop", len(ext) >= 1, where=helper.where(c.ln))
